@@ -188,6 +188,10 @@ impl<F: Float + SampleUniform + std::fmt::Debug, D: Hash + Copy, H: Hasher + Def
         let m: usize = self.hsketch.len();
         let mut nbpass = 1u64;
         let inrange = Uniform::<usize>::new(0, m).unwrap();
+        // without any populated bin there is nothing to copy from, and the search below would never end
+        if !self.init.iter().any(|&b| b) {
+            return Err(anyhow::anyhow!("OptDensMinHash densify : no populated bin, nothing was sketched"));
+        }
         for k in 0..m {
             if !self.init[k] {
                 // change hash function for each, item. rng has no loop at expected horizon and provides independance so we get universal hash function
@@ -361,6 +365,10 @@ impl<F: Float + SampleUniform + std::fmt::Debug, D: Hash + Copy, H: Hasher + Def
         let m: usize = self.hsketch.len();
         let unif_m = Uniform::<usize>::new(0, m).unwrap();
         let mut pass: u64 = 1;
+        // without any populated bin there is nothing to copy from, and the loop below would never end
+        if !self.init.iter().any(|&b| b) {
+            return Err(anyhow::anyhow!("RevOptDensMinHash densify : no populated bin, nothing was sketched"));
+        }
         while self.nb_empty > 0 {
             for k in 0..m {
                 if self.init[k] {
